@@ -248,58 +248,72 @@ def small_primes(n):
     return [2] + [2 * i + 1 for i in range(1, m + 1) if sieve[i]]
 
 
+def _fl_mul(a, b, W, up):
+    """directed product of two positive (mantissa, exponent) floats, mantissa cut to W bits"""
+    m = a[0] * b[0]
+    e = a[1] + b[1]
+    sh = m.bit_length() - W
+    if sh > 0:
+        m = -((-m) >> sh) if up else (m >> sh)
+        e += sh
+    return (m, e)
+
+
+def _fl_pow(x, n, W, up):
+    r = (1, 0)
+    b = x
+    while n:
+        if n & 1:
+            r = _fl_mul(r, b, W, up)
+        n >>= 1
+        if n:
+            b = _fl_mul(b, b, W, up)
+    return r
+
+
 def bernoulli_zeta(n):
-    """exact B_n for even n >= 2 from |B_n| = 2 n! zeta(n) / (2 pi)^n and the von Staudt-Clausen denominator, all in
-    integer fixed point with rigorous bounds; returns Fraction or None if the numerator could not be isolated"""
-    assert n >= 2 and n % 2 == 0
+    """exact B_n for even n >= 100 from |B_n| = 2 n! zeta(n) / (2 pi)^n and the von Staudt-Clausen denominator.
+    (2 pi)^n and zeta(n) are enclosed with directed W-bit arithmetic; the numerator |B_n| q is an integer, so it is
+    determined as soon as the enclosure of 2 n! q zeta(n) / (2 pi)^n contains exactly one integer with margin.
+    Returns a Fraction, or None if the enclosure did not isolate the numerator."""
+    assert n >= 100 and n % 2 == 0      # (the direct zeta sum needs ~2^(W/n) terms)
     q = 1
     for p in small_primes(n + 1):
         if n % (p - 1) == 0:
             q *= p
     f = math.factorial(n)
-    # size of the numerator in bits
     size = f.bit_length() + q.bit_length() - int(n * 2.651) + 8      # log2(2 pi) = 2.6514...
-    W = max(64, size + 64)
-    plo, phi = pi_fixed(W + n.bit_length() + 8)
-    sh = n.bit_length() + 8
-    # (2 pi)^n as exact rational bounds: (2 plo / 2^(W+sh))^n ..
-    two_pi_lo, two_pi_hi = 2 * plo, 2 * phi
-    # zeta(n) bounds: sum_{k<=K} k^-n  +  tail in (0, K^(1-n)/(n-1) ]
-    Z = 1 << (W + 16)
+    W = max(128, size + 96)
+    plo, phi = pi_fixed(W + 8)
+    lo2pi = (2 * plo, -(W + 8))
+    hi2pi = (2 * phi, -(W + 8))
+    P_lo = _fl_pow(lo2pi, n, W + 64, False)
+    P_hi = _fl_pow(hi2pi, n, W + 64, True)
+    # zeta(n) in units of 2^-Zb: sum_{k<K} floor(Z/k^n), stop at the first zero term
+    Zb = W + 16
+    Z = 1 << Zb
     K = 2
     zlo = Z
     while True:
-        t = Z // (K ** n) if K ** n <= Z else 0
-        if t == 0:
+        kn = K ** n
+        if kn > Z:
             break
-        zlo += t
+        zlo += Z // kn
         K += 1
-    zhi = zlo + K + 2          # floor errors (< K) + tail (< 2 units since K^-n < 2^-(W+16))
-    # |B_n| q = 2 f q zeta / (2pi)^n ;  use integer division with directed rounding
-    D = W + sh
-    den_lo = two_pi_lo ** n       # scaled by 2^(D n)
-    den_hi = two_pi_hi ** n
-    num_lo = 2 * f * q * zlo
-    num_hi = 2 * f * q * zhi
-    S = D * n - (W + 16)          # overall power of two: value = num / den * 2^S
-    G = 64
-    if S + G >= 0:
-        lo = (num_lo << (S + G)) // den_hi
-        hi = -((-(num_hi << (S + G))) // den_lo)
-    else:
-        return None
-    # lo, hi bound |numerator| * 2^G
-    a = (lo >> G)
-    b = (hi >> G)
-    cand = None
-    for c in (a, a + 1, b, b + 1):
-        if lo <= (c << G) <= hi or (abs((c << G) - lo) < (1 << (G - 8)) and abs((c << G) - hi) < (1 << (G - 8))):
-            cand = c
-            break
-    if cand is None or hi - lo > (1 << (G - 8)):
+    zhi = zlo + K + 2          # floor errors (< K) + tail (sum_{k>=K} k^-n < 2 K^-n < 2 units)
+    N_lo = Fraction(2 * f * q * zlo, Z)
+    N_hi = Fraction(2 * f * q * zhi, Z)
+
+    def val(m_e):
+        m, e = m_e
+        return Fraction(m << e) if e >= 0 else Fraction(m, 1 << (-e))
+    lo = N_lo / val(P_hi)
+    hi = N_hi / val(P_lo)
+    c = round((lo + hi) / 2)
+    if not (c - Fraction(1, 256) < lo <= hi < c + Fraction(1, 256)):
         return None
     sign = 1 if (n // 2) % 2 == 1 else -1
-    return Fraction(sign * cand, q)
+    return Fraction(sign * c, q)
 
 
 def bernoulli(n):
@@ -661,7 +675,7 @@ def selftest():
     B = bernoulli_table(60)
     for n in range(61):
         assert bernoulli_tangent(n) == B[n], n
-    for n in (2, 4, 12, 60, 100, 300, 700, 1000):
+    for n in (100, 102, 300, 700, 1000):
         assert bernoulli_zeta(n) == bernoulli_tangent(n), n
     E = eulernum_by_series(60)
     for n in range(61):
